@@ -1,8 +1,99 @@
-(* C10 - Namespace reading is complete, ordered and deterministic. Statements only. *)
+(* C10 - Namespace reading is complete, ordered and deterministic. Statements only.
+   Model: Namespace/Listing.v (read_namespace / read_files on an abstract directory tree) over Namespace/Reader.v
+   (_read_definitions with file_pool, direct / transitive sets, promotion, pending definitions).
+   Proofs: Namespace/SortProofs.v, ListingProofs.v, ReadEvents.v, LoopProofs.v, FilesProofs.v, ApiProofs.v.
+   strict_unique L = no two lookups are equal up to letter case with the same version (excludes the open findings
+   F7 and F5b, which the model mirrors); files_unique L = every lookup has its own file. *)
 From Coq Require Import ZArith List Bool Sorted Permutation.
-From PV Require Import Namespace.Reader Namespace.ReaderProofs Namespace.Listing Namespace.ListingProofs.
+From PV Require Import Namespace.Reader Namespace.ReaderProofs Namespace.ReadPure Namespace.ReadCache Namespace.SortProofs
+                       Namespace.LoopProofs Namespace.FilesProofs Namespace.Listing Namespace.ListingProofs Namespace.ApiProofs.
 Import ListNotations.
 Open Scope Z_scope.
+
+(* read_namespace returns exactly one composite per definition file (.dsdl and .uavcan) under the root directory -
+   none missing, none duplicated, none from the lookup directories -, each equal to what reading that definition on
+   its own yields, sorted *)
+Theorem C10_complete : forall txt files root lookups allow out,
+  NoDup (map fid files) ->
+  (forall L, listing (dedupe_dirs (lookups ++ [root])) files = Ok L -> strict_unique L) ->
+  run_namespace txt files root lookups allow = Ok out ->
+  Permutation (map tfile (odirect out)) (map fid (filter (fun f => globbed f && is_prefix root (fdir f)) files)) /\
+  StronglySorted (fun a b => rank_lt (tkey a) (tkey b)) (odirect out) /\
+  (forall L, listing (dedupe_dirs (lookups ++ [root])) files = Ok L -> forall t, In t (odirect out) -> genuine txt L t).
+Proof. intros txt files root lookups allow out NF. exact (run_namespace_complete txt files NF root lookups allow out). Qed.
+Print Assumptions C10_complete.
+
+(* both result lists are always sorted by (full name, newest major first, newest minor first) ... *)
+Theorem C10_sorted : forall txt targets L out, complete_read txt targets L = Ok out ->
+  StronglySorted (fun a b => rleb (tkey a) (tkey b) = true) (odirect out) /\
+  StronglySorted (fun a b => rleb (tkey a) (tkey b) = true) (otrans out).
+Proof. exact complete_read_sorted. Qed.
+Print Assumptions C10_sorted.
+
+(* ... strictly, when no two list members share (name, version) *)
+Theorem C10_sorted_strict : forall (l : list ctree), NoDup (map tkey l) ->
+  StronglySorted (fun a b => rank_lt (tkey a) (tkey b)) (sort_trees l).
+Proof. exact sort_trees_strict. Qed.
+Print Assumptions C10_sorted_strict.
+
+(* the order in which the files are enumerated (operating system, iteration order of a set, hash seed) is irrelevant *)
+Theorem C10_perm : forall txt f1 f2,
+  Permutation f1 f2 -> NoDup (map fid f1) ->
+  (forall root lookups allow, ukeys [root] f1 -> ukeys (dedupe_dirs (lookups ++ [root])) f1 ->
+     run_namespace txt f1 root lookups allow = run_namespace txt f2 root lookups allow) /\
+  (forall ids roots lookups, (forall dirs, ukeys (dedupe_dirs dirs) f1) ->
+     run_files txt f1 ids roots lookups = run_files txt f2 ids roots lookups).
+Proof.
+  intros txt f1 f2 P N. split.
+  - intros. apply run_namespace_perm; assumption.
+  - intros. apply run_files_perm; assumption.
+Qed.
+Print Assumptions C10_perm.
+
+(* read_files / _complete_read_function: direct = exactly the requested definitions (one composite each, equal to
+   reading it alone), transitive = exactly the rest of their dependency closure, disjoint, both strictly sorted *)
+Theorem C10_files : forall txt L, strict_unique L -> files_unique L -> forall targets out,
+  NoDup targets -> (forall d, In d targets -> In d L) ->
+  complete_read txt targets L = Ok out ->
+  (forall t, In t (odirect out) <-> exists d, In d targets /\ read_top txt d L = Ok t) /\
+  Permutation (map tfile (odirect out)) (map mfile targets) /\
+  (forall t, In t (otrans out) <-> ~ In t (odirect out) /\ exists t0, In t0 (odirect out) /\ sdesc t t0) /\
+  (forall t, In t (otrans out) -> genuine txt L t) /\
+  (forall t, In t (odirect out) -> ~ In t (otrans out)) /\
+  StronglySorted (fun a b => rank_lt (tkey a) (tkey b)) (odirect out) /\
+  StronglySorted (fun a b => rank_lt (tkey a) (tkey b)) (otrans out).
+Proof. exact complete_read_spec. Qed.
+Print Assumptions C10_files.
+
+(* the same on the directory tree: however often and in whatever order a file is requested *)
+Theorem C10_files_api : forall txt files, NoDup (map fid files) -> forall ids roots lookups out,
+  (forall dirs L, listing (dedupe_dirs dirs) files = Ok L -> strict_unique L) ->
+  (forall f, In f files -> In (fid f) ids -> globbed f = true) ->
+  run_files txt files ids roots lookups = Ok out ->
+  (forall i, In i (map tfile (odirect out)) <-> In i ids) /\
+  NoDup (map tfile (odirect out)) /\
+  (forall t, In t (otrans out) <-> ~ In t (odirect out) /\ exists t0, In t0 (odirect out) /\ sdesc t t0) /\
+  (forall t, In t (odirect out) -> ~ In t (otrans out)) /\
+  StronglySorted (fun a b => rank_lt (tkey a) (tkey b)) (odirect out) /\
+  StronglySorted (fun a b => rank_lt (tkey a) (tkey b)) (otrans out).
+Proof. intros txt files NF. exact (run_files_spec txt files NF). Qed.
+Print Assumptions C10_files_api.
+
+(* order and duplication of the directory arguments are irrelevant: lookups of both entry points, roots of read_files *)
+Theorem C10_dir_args : forall txt files, NoDup (map fid files) -> forall a1 a2, (forall x, In x a1 <-> In x a2) ->
+  (forall root allow, ukeys (dedupe_dirs (a1 ++ [root])) files ->
+     run_namespace txt files root a1 allow = run_namespace txt files root a2 allow) /\
+  (forall ids roots, (forall dirs, ukeys (dedupe_dirs dirs) files) ->
+     run_files txt files ids roots a1 = run_files txt files ids roots a2) /\
+  (forall ids lookups, (forall dirs, ukeys (dedupe_dirs dirs) files) ->
+     run_files txt files ids a1 lookups = run_files txt files ids a2 lookups).
+Proof.
+  intros txt files NF a1 a2 H. split; [|split].
+  - intros. apply run_namespace_dir_args; assumption.
+  - intros. apply run_files_dir_args; assumption.
+  - intros. apply run_files_root_args; assumption.
+Qed.
+Print Assumptions C10_dir_args.
 
 (* a set of root / lookup directories is rejected exactly when one lies inside another or - if name collisions are
    disallowed - two distinct ones have the same name ignoring case *)
@@ -12,3 +103,47 @@ Theorem C10_reject_dirs : forall allow dirs,
               ((allow = false /\ lower (dname a) = lower (dname b)) \/ inside a b).
 Proof. exact dirs_rejected_spec. Qed.
 Print Assumptions C10_reject_dirs.
+
+(* the recursion of _read_definitions has exactly one level below the targets: what is pending there is cached *)
+Theorem C10_level1_cached : forall txt L, strict_unique L -> files_unique L -> forall targets,
+  NoDup targets -> (forall d, In d targets -> In d L) -> complete_read txt targets L <> Err EUnreachable.
+Proof. exact complete_read_reachable. Qed.
+Print Assumptions C10_level1_cached.
+
+(* Without the hypothesis of unique (name, version) "one composite per file" is false (open finding F5b):
+   ns/A.1.0.dsdl and ns/7000.A.1.0.dsdl with equal texts yield ONE composite. *)
+Definition f5b_files : list fent :=
+  [mkF [[97]; [110; 115]] [65] 1 0 None XDsdl false 0; mkF [[97]; [110; 115]] [65] 1 0 (Some 7000) XDsdl false 1].
+Theorem C10_complete_refuted : exists txt files root out,
+  NoDup (map fid files) /\ run_namespace txt files root [] true = Ok out /\
+  length (odirect out) <> length (filter (fun f => globbed f && is_prefix root (fdir f)) files).
+Proof.
+  exists (fun _ => [Plain 8]), f5b_files, [[97]; [110; 115]].
+  eexists. split; [repeat constructor; simpl; intuition discriminate|]. split; [vm_compute; reflexivity|].
+  vm_compute. discriminate.
+Qed.
+Print Assumptions C10_complete_refuted.
+
+(* non-vacuity: two versions, a nested namespace, a lookup directory; the hypotheses hold and the model computes *)
+Definition nv_files : list fent :=
+  [mkF [[97]; [110; 115]] [90] 1 0 None XDsdl false 0;            (* a/ns/Z.1.0.dsdl   refers to A.1.5 and lk.L.1.0 *)
+   mkF [[97]; [110; 115]] [65] 1 5 None XDsdl false 1;            (* a/ns/A.1.5.dsdl *)
+   mkF [[97]; [110; 115]] [65] 1 10 None XUavcan false 2;         (* a/ns/A.1.10.uavcan *)
+   mkF [[97]; [110; 115]; [115]] [65] 2 0 None XDsdl false 3;     (* a/ns/s/A.2.0.dsdl *)
+   mkF [[98]; [108; 107]] [76] 1 0 None XDsdl false 4;            (* b/lk/L.1.0.dsdl *)
+   mkF [[97]; [110; 115]] [78] 1 0 None XOther false 5].          (* a/ns/N.1.0.txt *)
+Definition nv_txt (f : Z) : list item :=
+  if f =? 0 then [Ref [65] 1 5 0; Ref [108; 107; 46; 76] 1 0 2] else [Plain 8].
+Example C10_nonvacuous :
+  NoDup (map fid nv_files) /\
+  (forall L, listing (dedupe_dirs ([[[98]; [108; 107]]] ++ [[[97]; [110; 115]]])) nv_files = Ok L -> strict_unique L) /\
+  exists out, run_namespace nv_txt nv_files [[97]; [110; 115]] [[[98]; [108; 107]]] true = Ok out /\
+              map tfile (odirect out) = [2; 1; 0; 3].
+Proof.
+  split; [repeat constructor; simpl; intuition discriminate|]. split.
+  - intros L H. vm_compute in H. inversion H; subst L. clear H.
+    intros a b Ha Hb. simpl in Ha, Hb.
+    repeat (destruct Ha as [Ha|Ha]; [subst a|]); try contradiction;
+      repeat (destruct Hb as [Hb|Hb]; [subst b|]); try contradiction; vm_compute; intros; try reflexivity; try discriminate.
+  - eexists. split; vm_compute; reflexivity.
+Qed.
